@@ -1,6 +1,6 @@
 package main
 
 // placeholder stubs, filled in below
-func genEnum(e *emitter, depth, budget int) (int, bool) { return 0, true }
-func replayCrypto(data []byte)                          {}
+func genEnum(e *emitter, depth, budget int) (int, bool)             { return 0, true }
+func replayCrypto(data []byte)                                      {}
 func mainCrypto(out, prefix string, perShard, n int, corpus string) {}
